@@ -358,7 +358,7 @@ PROPS = {
         "lean_modules": ["SqlizeModel.Props.C04", "SqlizeModel.Props.TieElement", "SqlizeModel.Props.TieApiLoad", "SqlizeModel.Props.TieApiFiles"],
         "theorems": ["Sqlize.C04.converges", "Sqlize.C04.next_diff_empty", "Sqlize.C04.down_returns", "Sqlize.C04.history_schema",
                      "Sqlize.C04.model_converges", "Sqlize.C04.model_next_diff_empty", "Sqlize.rounds", "Sqlize.schema_up_vocab", "Sqlize.UpScope.of_equiv",
-                     "Sqlize.execAll_textual", "Sqlize.Migration.diff_plain", "Sqlize.Migration.migrate_mem", "Sqlize.Tie.element_skeleton_as_modelled", "Sqlize.Tie.api_load_skeleton_as_modelled", "Sqlize.Tie.api_files_skeleton_as_modelled"],
+                     "Sqlize.execAll_textual", "Sqlize.Migration.diff_plain", "Sqlize.Migration.migrate_mem", "Sqlize.Tie.element_skeleton_as_modelled", "Sqlize.Tie.api_load_skeleton_as_modelled", "Sqlize.Tie.api_files_skeleton_as_modelled", "Sqlize.C04.model_down_returns", "Sqlize.rounds_down", "Sqlize.exec_equiv", "Sqlize.execAll_equiv", "Sqlize.exec_nodup", "Sqlize.DBE.of_equiv"],
         "suites": [{"name": "history", "timeout": 3600}],
         "corr_points": None,
         "rule": "history suite: revision sequences M1..Mk (k = 2..8 quick, ..40 thorough) of random schemas and C01 change sets (drop table, drop "
@@ -373,8 +373,10 @@ PROPS = {
                        "composition of the one-step properties; and on the implementation model itself, without assuming them (model_converges, model_next_diff_empty): "
                        "for revision lists of any length whose steps are inside the scope of C01.schema_on_reference_engine (MySQL reader model, no foreign keys / inline PRIMARY KEY), "
                        "the history the workflow writes (each printed up migration appended as it reaches the text) is computed without error, is accepted by the reference engine "
-                       "statement by statement, describes a schema DB.equiv to the newest revision's, and the next diff is empty both ways. Outside that scope, the fingerprint clause and the "
-                       "way back through files: the real multi-step workflow is driven on every run and every recorded migration is "
+                       "statement by statement, describes a schema DB.equiv to the newest revision's, and the next diff is empty both ways; and with the hypotheses of the C02 theorem at every step as well, "
+                       "replaying the recorded down migrations newest first from the newest revision's schema is well-formed at every statement and ends in the empty schema (model_down_returns; the steps compose because the reference engine "
+                       "respects TableSpec.equiv, exec_equiv). Outside that scope, the fingerprint clause and the "
+                       "round trip through files: the real multi-step workflow is driven on every run and every recorded migration is "
                        "replayed on the reference engine.",
     },
 
